@@ -8,8 +8,13 @@ let zs = z_of_string
 let sz = string_of_z
 let lp (x : Model.z) : bool = ZA.probab_prime (za_of_z x) 5 <> 0
 let isp (x : Model.z) : bool = Model.isprime_total lp x
+let last_u : (Model.z * ZA.t) option ref = ref None      (* the root loop asks for many roots of the same number *)
+let za_cached (u : Model.z) : ZA.t =
+  match !last_u with
+  | Some (v, z) when v == u -> z
+  | _ -> let z = za_of_z u in last_u := Some (u, z); z
 let root (u : Model.z) (k : Model.z) : (Model.z * bool) option =
-  let u' = za_of_z u and k' = ZA.to_int (za_of_z k) in
+  let u' = za_cached u and k' = ZA.to_int (za_of_z k) in
   if ZA.sign u' < 0 && k' land 1 = 0 then None
   else begin
     let r = if ZA.sign u' >= 0 then ZA.root u' k' else ZA.neg (ZA.root (ZA.neg u') k') in
